@@ -89,3 +89,18 @@ package verifext
 //@ requires forall k int :: 0 <= k && k < len(state.Share.Committee) ==> state.Share.Committee[k] != nil
 //@ requires round >= specqbft.FirstRound && round <= 4611686018427387904
 //@ ensures exists k int :: 0 <= k && k < len(state.Share.Committee) && result == state.Share.Committee[k].OperatorID
+
+// SSVMessage accessors are plain field reads.
+//@ extern func (m *spectypes.SSVMessage) GetID() (result spectypes.MessageID)
+//@ pure
+//@ ensures result == m.MsgID
+
+//@ extern func (m *spectypes.SSVMessage) GetType() (result spectypes.MsgType)
+//@ pure
+//@ ensures result == m.MsgType
+
+// The SSZ decoder of partial-signature messages allocates every entry it decodes (generated UnmarshalSSZ): a
+// successfully decoded message has no nil entries.
+//@ extern func (s *spectypes.SignedPartialSignatureMessage) Decode(data []byte) (result error)
+//@ modifies everything
+//@ ensures result == nil ==> (forall k int :: 0 <= k && k < len(s.Message.Messages) ==> s.Message.Messages[k] != nil)
